@@ -24,6 +24,7 @@ Tie to the source (robotpy_ext/misc/precise_delay.py, run from $VERIF_REPO):
     sweep over a finite range (recorded under exhaustive_parts), not a theorem
     over floats; the model-level statement is C16_period_whole_us.
 """
+import gc
 import glob
 import importlib
 import json
@@ -83,7 +84,9 @@ def op_text(o):
     if o[0] == "F":
         return "free()"
     h = how_of(o)
-    return "with-block/__exit__ left by %s" % {"end": "running to its end", "break": "break", "return": "return"}.get(h, h.replace(":", " "))
+    if h.startswith("raise:"):
+        return "leaving the with-block (__exit__) by a %s raised in the loop body" % h[6:]
+    return "leaving the with-block (__exit__) by %s" % {"end": "running to its end"}.get(h, h)
 
 
 class Sim:
@@ -287,8 +290,11 @@ def drive(sim, cls, case):
             if e is not exc:
                 raise
             came_out = True
+        # exc -> traceback -> this frame -> exc is a reference cycle that would keep the object alive until
+        # some later garbage collection: break it, so that the object dies with the worker's frames
+        exc = None
         res["snaps"].append(snap() + [1 if came_out else 0])
-        return holder[0]
+        return holder.pop()
 
     def body():
         if use_with:
@@ -337,10 +343,15 @@ def drive(sim, cls, case):
             res["confirmed"] = res.get("confirmed", 0) + 1
         if sim.now() != m[1]:
             res["error"] = "harness: clock moved while a wait was outstanding"
-        sim.advance(m[2] - sim.now())   # exactly to the alarm, never beyond
+        sim.advance(max(0, m[2] - sim.now()))   # exactly to the alarm, never beyond
     th.join(timeout=HANG_S)
     sim.enabled = False
     res["blocked"] = sim.blocked
+    if sim.active:
+        # the implementation left its notifier allocated.  Its object must be finalised NOW (__del__ -> free()
+        # on the handle it still holds), not by some later garbage collection during another case whose
+        # notifier has been given the same handle value.
+        gc.collect()
     sim.release_leftovers()
     return res
 
